@@ -84,6 +84,7 @@ E.register_unit_execute(R, "C12")
 E.register_plan(R, "C12")
 E.register_worker_task(R, "C12")
 E.register_cached_test_func(R, "C12")
+E.register_stateful_execute(R, "C12")
 
 LEVEL_TEXT = ("Deductive: every sequential clause of C12 (failure counter, limit flag, stop-dominates-send, unique-inputs cache, settings merge, "
               "step limits) is a postcondition / lemma over the real functions, discharged by z3 for all inputs with no bound. "
